@@ -16,7 +16,7 @@ EXPLANATION = (
     "by a never-cleared flag); (H3) the reference cache has exactly one filling function, so what is cached "
     "cannot depend on which query came first; (H4) lookups keyed by caller-supplied names end in Err/Option "
     "propagation, never in unwrap/expect/indexing; (H6) every loop that loads contig batches on demand runs over all batches with no exit other than exhaustion or error, so a query cannot leave the tables half loaded; (H5) clone_for_thread re-opens the file and no reader state is "
-    "shared: no Arc/Rc/raw pointer/Cell in the handle's types and no mutable static read by reader code.")
+    "shared: no Arc/Rc/raw pointer/Cell in the handle's types and no mutable static read by reader code.  (H8) load-once contig tables only grow outside the loader-private call graph; (H3) evictions are harmless because every look-up is backed by the filler, and no error exit is reachable after a write into the cache.")
 UNDECIDED = "that each individual answer is right (C01/C03/C07); OS-level sharing of the file between handles"
 
 DEC = "ragc_core::decompressor::Decompressor"
